@@ -41,20 +41,20 @@ func valUint8NotEmptyAsString(fi *finfo, rv reflect.Value, addr uintptr) (any, r
 }
 
 func ivalUint8(fi *finfo, rv reflect.Value, addr uintptr) (any, reflect.Value, bool) {
-	return rv.FieldByIndex(fi.index).Interface().(uint8), nilValue, false
+	return uint8(rv.FieldByIndex(fi.index).Uint()), nilValue, false
 }
 
 func ivalUint8AsString(fi *finfo, rv reflect.Value, addr uintptr) (any, reflect.Value, bool) {
-	return strconv.FormatUint(uint64(rv.FieldByIndex(fi.index).Interface().(uint8)), 10), nilValue, false
+	return strconv.FormatUint(uint64(uint8(rv.FieldByIndex(fi.index).Uint())), 10), nilValue, false
 }
 
 func ivalUint8NotEmpty(fi *finfo, rv reflect.Value, addr uintptr) (any, reflect.Value, bool) {
-	v := rv.FieldByIndex(fi.index).Interface().(uint8)
+	v := uint8(rv.FieldByIndex(fi.index).Uint())
 	return v, nilValue, v == 0
 }
 
 func ivalUint8NotEmptyAsString(fi *finfo, rv reflect.Value, addr uintptr) (any, reflect.Value, bool) {
-	v := rv.FieldByIndex(fi.index).Interface().(uint8)
+	v := uint8(rv.FieldByIndex(fi.index).Uint())
 	if v == 0 {
 		return nil, nilValue, true
 	}
